@@ -3482,6 +3482,16 @@ fn convert_member_key_simple<'a>(
           ast::Type2::UintValue { value, .. } => Value::UINT(value),
           ast::Type2::FloatValue { value, .. } => Value::FLOAT(value),
           ast::Type2::TextValue { value, .. } => Value::TEXT(value),
+          // memberkey = ... / value S ":" and value = number / text / bytes
+          ast::Type2::UTF8ByteString { value, .. } => {
+            Value::BYTE(crate::token::ByteValue::UTF8(value))
+          }
+          ast::Type2::B16ByteString { value, .. } => {
+            Value::BYTE(crate::token::ByteValue::B16(value))
+          }
+          ast::Type2::B64ByteString { value, .. } => {
+            Value::BYTE(crate::token::ByteValue::B64(value))
+          }
           _ => {
             return Err(Error::PARSER {
               #[cfg(feature = "ast-span")]
@@ -3572,6 +3582,16 @@ fn convert_member_key_simple<'a>(
           ast::Type2::UintValue { value, .. } => Value::UINT(value),
           ast::Type2::FloatValue { value, .. } => Value::FLOAT(value),
           ast::Type2::TextValue { value, .. } => Value::TEXT(value),
+          // memberkey = ... / value S ":" and value = number / text / bytes
+          ast::Type2::UTF8ByteString { value, .. } => {
+            Value::BYTE(crate::token::ByteValue::UTF8(value))
+          }
+          ast::Type2::B16ByteString { value, .. } => {
+            Value::BYTE(crate::token::ByteValue::B16(value))
+          }
+          ast::Type2::B64ByteString { value, .. } => {
+            Value::BYTE(crate::token::ByteValue::B64(value))
+          }
           _ => {
             return Err(Error::PARSER {
               msg: ErrorMsg {
